@@ -1041,7 +1041,7 @@ class ProductSpaceElement(LinearSpaceElement):
                 out[i] = np.asarray(self[i])
             return out
 
-    def __array__(self):
+    def __array__(self, dtype=None):
         """An array representation of ``self``.
 
         Only available if `is_power_space` is True.
@@ -1064,7 +1064,10 @@ class ProductSpaceElement(LinearSpaceElement):
         array([[ 1.,  2.,  3.],
                [ 4.,  5.,  6.]])
         """
-        return self.asarray()
+        if dtype is None:
+            return self.asarray()
+        else:
+            return self.asarray().astype(dtype, copy=False)
 
     def __array_wrap__(self, array):
         """Return a new product space element wrapping the ``array``.
